@@ -268,7 +268,7 @@ Print Assumptions C19_round_us_spec.
 (* file_roundtrip_ext: write, then read into a fresh Sequence: the reader does not raise; every
    [EXTENSIONS] row and every label row comes back as it was; every trigger row comes back with delay and
    duration rounded to whole microseconds; every number <-> name pair of a kind that has events survives *)
-Theorem C19_file_roundtrip_ext : forall c0 c, file_ready c -> ext_l c0 = lib_empty ->
+Theorem C19_file_roundtrip_ext : forall c0 c, file_ready c -> (read_resets_ext_library = false -> ext_l c0 = lib_empty) ->
   exists c', reread_ext c0 c = Some c' /\
     (forall id, lib_get (ext_l c') id = lib_get (ext_l c) id) /\
     (forall id, lib_get (lset_l c') id = lib_get (lset_l c) id) /\
@@ -280,7 +280,7 @@ Proof. exact file_roundtrip_ext. Qed.
 Print Assumptions C19_file_roundtrip_ext.
 
 (* get_block's chain walk on the re-read store: the same entries in the same order *)
-Theorem C19_dec_ext_reread : forall c0 c c', file_ready c -> ext_l c0 = lib_empty -> reread_ext c0 c = Some c' ->
+Theorem C19_dec_ext_reread : forall c0 c c', file_ready c -> (read_resets_ext_library = false -> ext_l c0 = lib_empty) -> reread_ext c0 c = Some c' ->
   forall f eid r, dec_ext c f eid = Some r ->
     dec_ext c' f eid = Some (map file_payload r) /\
     labels_of_ext (map file_payload r) = labels_of_ext r /\
@@ -295,7 +295,7 @@ Print Assumptions C19_dec_ext_reread.
    (pypulseq keeps the library ids in the file, so not even the order inside a block changes), hence the
    result is the same for EVERY program, init and mode.  ([BLOCKS] rows are integers: C01.) *)
 Theorem C19_eval_labels_reread : forall c0 c c' init m x,
-  file_ready c -> ext_l c0 = lib_empty -> reread_ext c0 c = Some c' -> blocks c' = blocks c ->
+  file_ready c -> (read_resets_ext_library = false -> ext_l c0 = lib_empty) -> reread_ext c0 c = Some c' -> blocks c' = blocks c ->
   eval_table c init m = Some x -> eval_table c' init m = Some x.
 Proof. exact eval_labels_reread. Qed.
 Print Assumptions C19_eval_labels_reread.
@@ -323,14 +323,16 @@ Example C19_reread_example :
 Proof. vm_compute. repeat split; reflexivity. Qed.
 
 (* ==== read() onto an object that is not fresh ============================================================ *)
-(* Model/ExtFile.v [read_ext c0 f] for ANY receiving core c0 (C19_reread_ext_spec below states the store):
-   the trigger and the two label libraries and both extension type lists are re-created from the file; the
-   extension library is replaced only if the file has an [EXTENSIONS] section — otherwise the OLD one survives
-   with data and keymap (read_seq.py:43-61 does not re-create it). *)
+(* Model/ExtFile.v [read_ext c0 f] for ANY receiving core c0 (C19_reread_ext_spec states the store): the trigger
+   and the two label libraries and both extension type lists are re-created from the file.  The extension library:
+   [read_resets_ext_library] is read from read_seq.py — true since /repo 9f51bed (re-created like the others);
+   before that commit the OLD library survived, data and keymap, whenever the file had no [EXTENSIONS] section.
+   All theorems of this section are proved for both values of the flag: the old behaviour left unused stale rows
+   in the library (and in the next written file — the C02 finding) but could not make get_block wrong. *)
 Theorem C19_reread_ext_spec : forall c0 c, xt_inv c ->
   exists c', reread_ext c0 c = Some c' /\
     ext_l c' = (if nonempty (ext_l c) then lib_of_rows lib_empty (map (read_row sec_ext) (wrows sec_ext (ext_l c)))
-                else ext_l c0) /\
+                else if read_resets_ext_library then lib_empty else ext_l c0) /\
     trig_l c' = lib_of_rows lib_empty (map (read_row sec_trig) (wrows sec_trig (trig_l c))) /\
     lset_l c' = lib_of_rows lib_empty (map (read_row sec_lset) (wrows sec_lset (lset_l c))) /\
     linc_l c' = lib_of_rows lib_empty (map (read_row sec_linc) (wrows sec_linc (linc_l c))) /\
@@ -339,10 +341,11 @@ Theorem C19_reread_ext_spec : forall c0 c, xt_inv c ->
 Proof. exact reread_ext_spec. Qed.
 Print Assumptions C19_reread_ext_spec.
 
-(* the invariant survives: the surviving extension library is internally consistent (entries are looked up by
-   their full content and decoded against the current tables), the re-created ones are built from rows with
-   distinct ids.  So a stale keymap entry of the extension library can NOT make a later add_block resolve to a
-   wrong id: *)
+(* the invariant survives: the re-created libraries are built by insert(key_id, data) into a fresh library from rows
+   with distinct non-zero ids (no stale path remains there: keymap -> data is consistent, and for extension rows
+   also data -> keymap); a surviving extension library (old reader) is internally consistent, its entries are looked
+   up by their full content and decoded against the current tables.  So no stale keymap entry can make a later
+   add_block resolve to a wrong id: *)
 Theorem C19_read_onto_lab_inv : forall c0 c c',
   lab_inv c0 -> fr_inv c -> reread_ext c0 c = Some c' -> lab_inv c'.
 Proof. exact read_onto_lab_inv. Qed.
